@@ -577,3 +577,37 @@ package types
 //@   loop 1:
 //@     invariant 0 <= iter && iter <= len(valsList) && len(valsCopy) == len(valsList) && fresh(valsCopy)
 //@     invariant forall i int :: 0 <= i && i < iter && valsList[i] != nil ==> valsCopy[i] != nil && valsCopy[i] != valsList[i] && valsCopy[i].Address == valsList[i].Address && valsCopy[i].VotingPower == valsList[i].VotingPower && valsCopy[i].ProposerPriority == valsList[i].ProposerPriority
+
+// ---------------------------------------------------------------- C12: the voting-power cap on updates
+// The power an address holds in a validator list (0 when absent).
+//@ spec func powerOf(vals []*Validator, addr common.Address) int = ite(indexOf(vals, addr, len(vals)) < 0, 0, vals[indexOf(vals, addr, len(vals))].VotingPower)
+
+// Two-state frame lemma: the sum of powers depends only on the members and their powers.
+//@ lemma sumPowFrame(vals []*Validator, n int)
+//@   for C12
+//@   requires 0 <= n && n <= len(vals)
+//@   requires forall k int :: 0 <= k && k < n ==> vals[k] == old(vals[k]) && vals[k].VotingPower == old(vals[k].VotingPower)
+//@   ensures sumPow(vals, n) == old(sumPow(vals, n))
+//@   induction n
+//@   pattern sumPow(vals, n); old(sumPow(vals, n))
+
+// verifyUpdates' delta closure: what applying one update adds to the total (new power minus the power
+// the address holds now).
+//@ func verifyUpdates$1(update *Validator, vals *ValidatorSet) (d int64)
+//@   for C12
+//@   requires update != nil && wfVals(vals)
+//@   ensures [deltaIsNewMinusOld] 0 <= update.VotingPower ==> d == update.VotingPower - powerOf(vals.Validators, update.Address)
+
+//@ func verifyUpdates(updates []*Validator, vals *ValidatorSet, removedPower int64) (tvp int64, err error)
+//@   for C12
+//@   uses sumPowFrame
+//@   requires wfVals(vals)
+//@   requires forall i int :: 0 <= i && i < len(updates) ==> updates[i] != nil && 0 <= updates[i].VotingPower && updates[i].VotingPower <= 1152921504606846975
+//@   requires 0 <= removedPower && removedPower <= 1152921504606846975
+//@   modifies vals.totalVotingPower
+//@   ensures [capRespected] err == nil ==> tvp - removedPower <= 1152921504606846975
+//@   ensures [errIsOverflow] err != nil ==> err == ErrTotalVotingPowerOverflow && tvp == 0
+//@   loop 1:
+//@     invariant 0 <= iter && iter <= len(updatesCopy)
+//@     invariant tvpAfterRemovals <= 1152921504606846975 && wfVals(vals)
+//@     invariant forall k int :: 0 <= k && k < len(updatesCopy) ==> updatesCopy[k] != nil
